@@ -13,7 +13,7 @@ import ast
 
 from ..engine import rule, run_property
 from ..model import Undecided
-from ..cfg import dotted, call_name, is_call, simple_name, unparse, const_value, contains, enclosing
+from ..cfg import same, same_args, dotted, call_name, is_call, simple_name, unparse, const_value, contains, enclosing
 from ..flow import Canon, Defs, depends, expand
 from ..axis import axis_reports
 from ..util import origin_path, keyword, returns_of, calls_in, inside, order_key
@@ -35,7 +35,7 @@ def _switch_events(ctx, cls, mname, depth=0):
     for st in f.node.body:
         for x in sorted([y for y in ast.walk(st) if isinstance(y, (ast.Call, ast.Assign, ast.Delete))], key=order_key):
             if isinstance(x, ast.Call) and isinstance(x.func, ast.Attribute) and x.func.attr == mname and depth < 3 and \
-                    isinstance(x.func.value, ast.Name) and x.args and unparse(x.args[0]) == 'self':
+                    isinstance(x.func.value, ast.Name) and x.args and same(x.args[0], 'self'):
                 q = ctx.repo.resolve_name(f.mod, x.func.value)
                 if q in ctx.repo.classes:
                     sub = _switch_events(ctx, ctx.repo.classes[q], mname, depth + 1)
@@ -110,7 +110,7 @@ def c01a(ctx):
                   fail='the request params class of %s has no switch_bbox bound to _switch_bbox' % c.name)
     sb = ctx.fn(R + ':_switch_bbox')
     ok = any(isinstance(s, ast.Assign) and unparse(s.targets[0]) == 'self.bbox' and is_call(s.value, 'switch_bbox_epsg_axis_order') and
-             [unparse(a) for a in s.value.args] == ['self.bbox', 'self.srs'] for s in sb.walk())
+             same_args(s.value.args, ['self.bbox', 'self.srs']) for s in sb.walk())
     ctx.check(ok, '_switch_bbox:form', 'self.bbox = switch_bbox_epsg_axis_order(self.bbox, self.srs)', sb)
     fn = ctx.fn(R + ':switch_bbox_epsg_axis_order')
     g = fn.cfg
@@ -118,10 +118,10 @@ def c01a(ctx):
     swapped = [r for r in rets if isinstance(g.stmt[r].value, ast.Tuple)]
     ok = len(swapped) == 1
     if ok:
-        idx = [const_value(e.slice) for e in g.stmt[swapped[0]].value.elts if isinstance(e, ast.Subscript) and unparse(e.value) == 'bbox']
+        idx = [const_value(e.slice) for e in g.stmt[swapped[0]].value.elts if isinstance(e, ast.Subscript) and same(e.value, 'bbox')]
         ok = idx == [1, 0, 3, 2] and g.guarded(swapped[0], lambda at: at.op is None and 'is_axis_order_ne' in unparse(at.expr), True)
         others = [r for r in rets if r not in swapped]
-        ok = ok and all(unparse(g.stmt[r].value) == 'bbox' for r in others)
+        ok = ok and all(same(g.stmt[r].value, 'bbox') for r in others)
     ctx.check(ok, 'switch_bbox_epsg_axis_order:swap', 'returns (bbox[1], bbox[0], bbox[3], bbox[2]) exactly when SRS(srs).is_axis_order_ne, else the bbox unchanged', fn,
               fail='the axis-order switch does not swap exactly indices (1, 0, 3, 2) under is_axis_order_ne')
 
@@ -218,24 +218,24 @@ def c01c(ctx):
     tq = g.find(lambda x: is_call(x, 'self._get_transformed_query'))
     rt = g.find(lambda x: is_call(x, 'self._retrieve'))
     ok = bool(tq) and bool(rt) and all(g.guarded(n, lambda at: at.op == 'in' and 'query.srs' in unparse(at.left) and 'supported_srs' in unparse(at.right), False) for n, x in tq) and \
-        all(unparse(x.args[0]) == 'query' for n, x in rt)
+        all(same(x.args[0], 'query') for n, x in rt)
     ctx.check(ok, 'WMSInfoClient.get_info:transform-iff-unsupported', 'the query is transformed exactly when its SRS is not supported, and the (possibly transformed) query is sent', gi)
     co = ctx.fn('mapproxy/layer.py:InfoQuery.coord')
     rets = returns_of(co.node)
     ok = len(rets) == 1
     if ok:
         v = rets[0].value
-        ok = isinstance(v, ast.Call) and is_call(v.func, 'make_lin_transf') and unparse(v.args[0]) == 'self.pos' and \
+        ok = isinstance(v, ast.Call) and is_call(v.func, 'make_lin_transf') and same(v.args[0], 'self.pos') and \
             unparse(v.func.args[0]).replace(' ', '') == '(0,0,self.size[0],self.size[1])' and unparse(v.func.args[1]) == 'self.bbox'
     ctx.check(ok, 'InfoQuery.coord:form', 'coord = make_lin_transf((0, 0, size[0], size[1]), bbox)(pos): pixel rectangle first, ground bbox second', co,
               fail='InfoQuery.coord is not make_lin_transf((0, 0, size[0], size[1]), bbox)(pos)')
     wf = ctx.fn('mapproxy/service/wmts.py:WMTSServer.featureinfo')
     defs = Defs(wf.node)
     iq = [x for x in wf.walk() if is_call(x, 'InfoQuery')]
-    ok = bool(iq) and unparse(iq[0].args[0]) == 'bbox' and unparse(iq[0].args[1]) == 'tile_layer.grid.tile_size' and unparse(iq[0].args[2]) == 'tile_layer.grid.srs' \
-        and unparse(iq[0].args[3]) == 'request.pos'
+    ok = bool(iq) and same(iq[0].args[0], 'bbox') and same(iq[0].args[1], 'tile_layer.grid.tile_size') and same(iq[0].args[2], 'tile_layer.grid.srs') \
+        and same(iq[0].args[3], 'request.pos')
     bb = [v for v, sel in defs.of('bbox')]
-    ok = ok and len(bb) == 1 and is_call(bb[0], 'tile_layer.tile_bbox') and unparse(bb[0].args[0]) == 'request'
+    ok = ok and len(bb) == 1 and is_call(bb[0], 'tile_layer.tile_bbox') and same(bb[0].args[0], 'request')
     ctx.check(ok, 'WMTSServer.featureinfo:query-of-served-tile', 'the info query uses the bbox of the converted (internal) tile, the tile size and the click position', wf,
               fail='WMTS GetFeatureInfo builds its query from another rectangle than the tile that GetTile serves for this address')
 
@@ -332,8 +332,8 @@ def c01f(ctx):
               'enumeration (their slot stays empty)', mg,
               fail='the merger does not place entry i of the list at grid slot i')
     ti = ctx.fn('mapproxy/image/tile.py:TiledImage.image')
-    ok = any(is_call(c, 'TileMerger') and len(c.args) >= 2 and unparse(c.args[0]) == 'self.tile_grid' and unparse(c.args[1]) == 'self.tile_size' for c in ti.walk()) and \
-        any(is_call(c, 'merge') and c.args and unparse(c.args[0]) == 'self.tiles' for c in ti.walk())
+    ok = any(is_call(c, 'TileMerger') and len(c.args) >= 2 and same(c.args[0], 'self.tile_grid') and same(c.args[1], 'self.tile_size') for c in ti.walk()) and \
+        any(is_call(c, 'merge') and c.args and same(c.args[0], 'self.tiles') for c in ti.walk())
     ctx.check(ok, 'TiledImage.image:passes-own-grid', 'TiledImage merges its own tiles with its own grid shape and tile size', ti)
 
 
